@@ -1159,6 +1159,8 @@ pub fn err_name(e: &ark_bulletproofs::r1cs::R1CSError) -> String {
 pub struct Proved<G: AffineRepr> {
     /// Ok(proof bytes) or Err(error text)
     pub proof: Result<Vec<u8>, String>,
+    /// the proof object itself (so that honest runs do not depend on the decoder, which is C11's business)
+    pub obj: Option<ark_bulletproofs::r1cs::R1CSProof<G>>,
     pub commitments: Vec<G>,
     pub ctx: Ctx<G::ScalarField>,
     pub transcript: Option<Transcript>,
@@ -1182,11 +1184,12 @@ pub fn prove<G: AffineRepr>(
     match r {
         Ok((proof, tr)) => Proved {
             proof: proof.to_bytes().map_err(|e| format!("to_bytes: {:?}", e)),
+            obj: Some(proof),
             commitments,
             ctx,
             transcript: Some(tr),
         },
-        Err(e) => Proved { proof: Err(err_name(&e)), commitments, ctx, transcript: None },
+        Err(e) => Proved { proof: Err(err_name(&e)), obj: None, commitments, ctx, transcript: None },
     }
 }
 
